@@ -27,6 +27,11 @@ FUNCTIONS = [
     'pymap.parsing.response.specials:FetchResponse.write', 'pymap.parsing.response.specials:SearchResponse.text',
     'pymap.parsing.response.fetch:_AddressList._parse', 'pymap.parsing.response.fetch:_ParamsList._value',
     'pymap.parsing.commands:InvalidCommand.message', 'pymap.imap.state:ConnectionState.do_command',
+    'pymap.parsing.response.fetch:EnvelopeStructure._value', 'pymap.parsing.response.fetch:_AddressList._value',
+    'pymap.parsing.response.fetch:MultipartBodyStructure.extended', 'pymap.parsing.response.fetch:TextBodyStructure.extended',
+    'pymap.parsing.response.fetch:ContentBodyStructure.extended', 'pymap.parsing.response.fetch:MessageBodyStructure.extended',
+    'pymap.parsing.response.fetch:_Disposition._value', 'pymap.message:BaseLoadedMessage._get_body_structure',
+    'pymap.message:BaseLoadedMessage._get_envelope_structure',
 ]
 ASSUMPTIONS = [
     'datum length <= bound; code points up to U+10FFFF',
@@ -36,8 +41,8 @@ ASSUMPTIONS = [
 ]
 STUBS = ['email Address objects are duck-typed stand-ins carrying symbolic str attributes',
          'UTF-7 / UTF-16-BE / base64 codecs: exact models (pysymex.codecs7)']
-OUTSIDE = ['whole-session byte streams', 'structures produced inside the email package',
-           'BODYSTRUCTURE of parsed messages (header parsing)']
+OUTSIDE = ['whole-session byte streams', 'header texts outside the stated vocabulary (the email package parses them; '
+           'fetch_structures enumerates a vocabulary, it does not quantify over all header bytes)']
 
 _g: dict = {}
 
@@ -224,10 +229,76 @@ def _h_fetch_echo(pi, n):
     return fn
 
 
+# ------------------------------------------------------------------ ENVELOPE / BODY / BODYSTRUCTURE of stored messages
+# The header text is parsed by the standard library's email package, which the engine does not encode: header values
+# and body shapes come from a concrete vocabulary (C06's, plus the forms below), which header gets which value and
+# which body follows is drawn by the engine.  The output goes through checks/_rfc_body.py, a recogniser written from
+# the ABNF of RFC 3501 section 9 (validated on the RFC's own examples).
+STRUCT_VALUES = [b'attachment; filename="a b.txt"', b'inline', b'a@b, c@d', b'undisclosed-recipients:;',
+                 b'"X, Y" <x@y>, z@w', b'text/plain; charset="utf-8"; format=flowed', b'en, de',
+                 b'multipart/alternative; boundary="b"', b'message/rfc822', b'application/octet-stream; name="x"']
+STRUCT_BODIES = [b'', b'x', b'line\r\n', b'--b\r\n--b--\r\n', b'--b\r\n\r\nx\r\n--b--\r\n',
+                 b'--b\r\nContent-Disposition: attachment; filename=f\r\n\r\nx\r\n--b\r\n\r\n\r\n--b--\r\n',
+                 b'From: \r\nTo: a@b, c@d\r\n\r\ninner']
+
+
+def struct_scenario(g, sim, conn_mod, picks, body):
+    """returns error|None"""
+    from checks import c06_conn, _rfc_body
+    values = c06_conn.HDR_VALUES + STRUCT_VALUES
+    msg = b''.join(c06_conn.HDR_NAMES[h] + b': ' + values[v] + b'\r\n' for h, v in picks) + b'\r\n' + STRUCT_BODIES[body]
+    feed = [b'l LOGIN testuser testpass\r\n', b'a APPEND INBOX {%d+}\r\n' % len(msg) + msg + b'\r\n', b's SELECT INBOX\r\n',
+            b'f FETCH * (ENVELOPE BODYSTRUCTURE BODY)\r\n']
+    out, leftover, exc = c06_conn.run_lines(g, sim, conn_mod, feed)
+    out = c06_conn.conc(out)
+    if exc is not None or b'f OK' not in out:
+        return None         # whether every command is answered is C06's business
+    try:
+        n = _rfc_body.check_fetch_responses(out)
+    except _rfc_body.Malformed as exc2:
+        return str(exc2)
+    if n != 3:
+        return 'expected ENVELOPE, BODYSTRUCTURE and BODY in the response, recognised %d structured values' % n
+    return None
+
+
+def _h_struct(nheaders):
+    def fn(eng):
+        from pysymex import Outcome
+        from checks import _conn, c06_conn
+        g = _sg
+        nvalues = len(c06_conn.HDR_VALUES) + len(STRUCT_VALUES)
+        picks = []
+        if nheaders == 2:
+            # two headers: Content-Type (it decides how the body is read) next to any other one
+            ct = c06_conn.HDR_NAMES.index(b'Content-Type')
+            h = eng.choose('h', len(c06_conn.HDR_NAMES) - 1)
+            h = h if h < ct else h + 1
+            picks = [(ct, eng.choose('v0', nvalues)), (h, eng.choose('v1', nvalues))]
+        elif nheaders == 1:
+            picks = [(eng.choose('h', len(c06_conn.HDR_NAMES)), eng.choose('v', nvalues))]
+        body = eng.choose('body', len(STRUCT_BODIES))
+        err = struct_scenario(g, g['_sim'], _conn, picks, body)
+        return Outcome(err is None, witness=lambda m: {'picks': picks, 'body': body}, info=err)
+    return fn
+
+
+_sg: dict = {}
+
+
 def harnesses(tier):
     from pysymex.runner import Harness
     q = tier == 'quick'
     hs = []
+    from checks import c06_conn, _sim
+    if not _sg:
+        _sg.update(c06_conn.bindings())
+        _sg['_sim'] = _sim
+    for nh in ([0, 1] if q else [0, 1, 2]):
+        hs.append(Harness('fetch_structures[headers=%d]' % nh, _h_struct(nh),
+                          {'headers': nh, 'header_names': len(c06_conn.HDR_NAMES),
+                           'values': len(c06_conn.HDR_VALUES) + len(STRUCT_VALUES), 'bodies': len(STRUCT_BODIES)},
+                          replay='struct', task_budget=120))
     for n in range(0, (4 if q else 6) + 1):
         hs.append(Harness('build_bytes[len=%d]' % n, _h_build_bytes(n), {'len': n}, replay='build'))
     for n in range(0, (3 if q else 4) + 1):
@@ -253,6 +324,10 @@ def harnesses(tier):
 
 
 def replay(harness, w):
+    if harness == 'struct':
+        from checks import _sim, _conn, c06_conn
+        err = struct_scenario(c06_conn.bindings(), _sim, _conn, [tuple(x) for x in w['picks']], w['body'])
+        return {'violates': err is not None, 'detail': err, 'category': 'FETCH structure: ' + (err or '').split(' at ')[0][:60]}
     from checks import _rfc
     from pymap.parsing import Params
     from pymap.parsing.exceptions import NotParseable
